@@ -109,6 +109,7 @@ c = M.contract("SimpleQueue.put", props=["C04", "C15"])
 c.param("self", T.Ref("SimpleQueue")).param("obj", T.Obj)
 c.raises("put/may-fail-on-pickling-or-pipe", "BaseException")
 c.modifies()
+c.trusted_summary = True
 
 c = M.contract("SimpleQueue.close", props=["C20", "C05"])
 c.param("self", T.Ref("SimpleQueue"))
